@@ -7,7 +7,7 @@ import re
 import shutil
 import time
 
-from vcommon import Infra, build_harness, copy_specs, monitor_report, run, scratch_dir, tlc, tlc_errors, tlc_stats, tlc_violations
+from vcommon import Infra, drive, build_harness, copy_specs, monitor_report, run, scratch_dir, tlc, tlc_errors, tlc_stats, tlc_violations
 
 PROPS = ["C04"]
 N = {"quick": 500, "thorough": 6000}
@@ -42,10 +42,7 @@ def compute(tier, seed):
         open(exp, "w").write(json.loads(m.group(1)))
         mbin = build_harness("minmax")
         outdir = os.path.join(work, "run")
-        rc, txt, _ = run([mbin, "-out", outdir, "-export", exp, "-n", str(N[tier]), "-e2e", str(E2E[tier]), "-seed", str(seed)],
-                         timeout=3000, check=False)
-        if rc != 0:
-            raise Infra("minmax harness failed: " + txt[-2000:])
+        txt, _ = drive([mbin, "-out", outdir, "-export", exp, "-n", str(N[tier]), "-e2e", str(E2E[tier]), "-seed", str(seed)], work, "minmax", timeout=3000)
         obs_path = os.path.join(outdir, "obs.ndjson")
         rep = monitor(work, obs_path)
         obs = {}
